@@ -2,6 +2,7 @@
 import glob, json, os, re, subprocess, sys
 import common as C
 import progs
+import histories as hist_mod
 
 LEVEL = "proof"
 
@@ -329,6 +330,8 @@ def run(res, ctx):
                         res.violation("the report of one file depends on which reports were written earlier in the same process (it differs from the report a fresh interpreter writes)",
                                       {"format": fmt, "file": os.path.basename(p), "program": open(p).read(), "reports_written_before": [os.path.basename(x) for x in order[:order.index(p)]],
                                        "first_difference_at": i, "in_this_process": got[max(0, i - 150):i + 150], "fresh_interpreter": want[max(0, i - 150):i + 150]})
+        # ---------------- (3c) seeded histories: versions of files written, scanners constructed with different selections / settings, several reports per scanner
+        hist_mod.run(res, ctx, C, scratch, rng, 30 if thorough else 12, 8, sarif=("sarif" in avail))
         # ---------------- (4) directory-entry order
         for order in ("asc", "desc"):
             droot = os.path.join(scratch.root, "ord_" + order); os.makedirs(droot)
